@@ -24,6 +24,10 @@ def gen_store(rng, n=None, adversarial=False):
     long_name = rng.choice(["t", "r"])
     for i in range(n if n is not None else rng.randint(3, 26)):
         e = gen.gen_event(rng, known_ids=[x["id"] for x in evs], authors=authors, kinds=kinds, times=times)
+        while any(x["id"] == e["id"] for x in evs):
+            # two *different* events under one id cannot exist (the id is the hash of the event); the reference answers are
+            # keyed by id
+            e["id"] = gen.mkid(rng)
         if adversarial and rng.random() < 0.5:
             e["tags"].append([rng.choice(ADV_NAMES + ["t", "e"]), rng.choice(ADV_VALUES)])
         if rng.random() < 0.08:
